@@ -21,7 +21,7 @@ pub const PROP: Prop = Prop {
     id: "C10",
     level: "exploration",
     rule: "(on every input the one-shot entry points - from_*, from_*_custom, from_*_elisp, datum::from_*, datum::from_*_custom, datum::from_*_elisp for str, slice and reader, str::parse, and Parser::expect_value / parse_value / expect_datum followed by expect_end - are compared: to the letter within a source kind, value and error message across source kinds; the span and shape of every car reached through as_pair are compared with the item list_iter yields) inputs from printed values in several dialects (multi-datum streams), mutations of them, token-alphabet sequences and arbitrary bytes x sampled parser option sets (all 1536 reachable) x three sources; the value API and the datum API are run to the end or first error on fresh parsers and compared item by item (value equality, same terminal event with identical message, location and category); value_iter, datum_iter and Iterator for Parser must give the same sequences; every datum is walked recursively through Ref::list_iter (with peek/is_empty), vector_iter, as_pair, Deref and compared with the value's own accessors; non-trivial = at least 2 datums, or a composite datum, or malformed input that yields an item before failing; distinct by digest of (input, options, source)",
-    assumptions: &["iteration stops at the first error (continuing after an error is C12's subject)"],
+    assumptions: &["the accessor walks use the items up to the first error; the item-and-error histories of both APIs are compared to the end of the input"],
     run,
     replay,
     builds: &["ff"],
@@ -323,6 +323,56 @@ pub fn check_case(c: &Case, label: &str) -> CaseResult {
             }
             (out, term)
         });
+        // a caller that goes on after an error: both APIs report the same
+        // sequence of items and errors (message, location, category) to the end
+        {
+            let hist_v: Vec<Result<Value, Term>> = with_parser!(c, q, |p| {
+                let mut out = Vec::new();
+                for _ in 0..cap {
+                    match p.next_value() {
+                        Ok(Some(v)) => out.push(Ok(v)),
+                        Ok(None) => break,
+                        Err(e) => {
+                            let io = e.is_io();
+                            out.push(Err(err_term(&e)));
+                            if io {
+                                break;
+                            }
+                        }
+                    }
+                }
+                out
+            });
+            let hist_d: Vec<Result<Value, Term>> = with_parser!(c, q, |p| {
+                let mut out = Vec::new();
+                for _ in 0..cap {
+                    match p.next_datum() {
+                        Ok(Some(d)) => out.push(Ok(d.value().clone())),
+                        Ok(None) => break,
+                        Err(e) => {
+                            let io = e.is_io();
+                            out.push(Err(err_term(&e)));
+                            if io {
+                                break;
+                            }
+                        }
+                    }
+                }
+                out
+            });
+            if hist_v != hist_d {
+                let i = hist_v.iter().zip(hist_d.iter()).position(|(a, b)| a != b).unwrap_or(hist_v.len().min(hist_d.len()));
+                let show = |h: &Vec<Result<Value, Term>>| match h.get(i) {
+                    Some(Ok(v)) => format!("item {}", short(v)),
+                    Some(Err(t)) => format!("error {:?}", t),
+                    None => "end of input".to_string(),
+                };
+                return Err((
+                    format!("history-after-error differs at={}", if i == 0 { "first" } else if hist_v[..i].iter().any(|r| r.is_err()) { "after-an-error" } else { "before-any-error" }),
+                    format!("going on after errors, step {}: the value API gives {}, the datum API {} ({} vs {} steps in all)", i + 1, show(&hist_v), show(&hist_d), hist_v.len(), hist_d.len()),
+                ));
+            }
+        }
         if vals.len() != dats.len() {
             return Err((
                 "item-count".into(),
